@@ -441,7 +441,7 @@ func (g *c09gen) callArgs(m methSpec, u []uint16, fl int) []jarg {
 			args = append(args, strArg(g, g.needle(u, fl)))
 		}
 		if len(args) > 0 && r.Intn(2) == 0 {
-			lim := []float64{0, 1, 2, 3, 4, 5, 1.9, -1, 4294967295, 4294967296, 4294967297, 4294967298, -4294967295, math.NaN(), math.Inf(1), 0.5}
+			lim := []float64{0, 1, 2, 3, 4, 5, 1.9, -1, 4294967295, 4294967296, 4294967297, 4294967298, -4294967295, math.NaN(), math.Inf(1), 0.5, 9223372036854775808 + 2048 + 1<<32, 18446744073709551616 + 3*4096, -9223372036854775808 - 2048}
 			if r.Intn(6) == 0 {
 				args = append(args, argUndef)
 			} else {
@@ -518,52 +518,11 @@ func canonicalKey(k string) bool {
 	return true
 }
 
-// Inputs on which otto panics today (classes 4 and 7).  The proposed repairs
-// (proposed_fixes/C09-*.diff) restore the ES5 result there only as far as the unit
-// confusions of class 1/2/3 allow, so these inputs are generated over plain strings
-// (no surrogates, no U+FFFD; ASCII for the byte-indexed lastIndexOf): a repaired tree
-// then agrees with Spec on them instead of showing a third behaviour.
-func overflowArg(m methSpec, args []jarg) bool {
-	if (m.coq != "MSubstr" && m.coq != "MLastIndexOf") || len(args) < 2 || !strings.HasPrefix(args[1].coq, "ANum ") {
-		return false
-	}
-	var bits uint64
-	fmt.Sscanf(args[1].coq, "ANum %d", &bits)
-	f := math.Float64frombits(bits)
-	return f >= 9e18 && !(m.coq == "MLastIndexOf" && math.IsInf(f, 1))
-}
-
-func plain(u []uint16) bool {
-	for _, c := range u {
-		if c >= 0xD800 && c < 0xE000 || c == 0xFFFD {
-			return false
-		}
-	}
-	return true
-}
-
 func (g *c09gen) oneCall() {
 	m := g.pickMethod()
 	u, fl := g.receiverUnits(m)
 	rc := g.receiver(u, false)
 	args := g.callArgs(m, u, fl)
-	if overflowArg(m, args) && flavourOf(u) != "ascii" {
-		u = g.units(0, 7)
-		rc = g.receiver(u, false)
-		a0 := strArg(g, g.needle(u, 0))
-		if m.coq == "MSubstr" {
-			a0 = g.position(lensOf(u))
-		}
-		args = []jarg{a0, args[1]}
-	}
-	if m.coq == "MCharAt" || m.coq == "MCharCodeAt" {
-		for !(strings.HasPrefix(rc.coq, "RLit") || strings.HasPrefix(rc.coq, "RStrObj")) && (rc.coq == "RUndef" || !plain(u)) {
-			if !plain(u) {
-				u = g.units(2, 7)
-			}
-			rc = g.receiver(u, false)
-		}
-	}
 	src := rc.build(m.js, jsOf(args))
 	o := RunJS(g.vm, src)
 	g.env.Add(fmt.Sprintf("CCall %s (%s) %s (%s)", m.coq, rc.coq, coqOf(args), cres(o)),
@@ -627,7 +586,7 @@ func (g *c09gen) fromCharCode() {
 		case k < 10:
 			args[i] = numArg(float64(Pick(r, loneUnits)))
 		case k < 12:
-			args[i] = numArg(Pick(r, []float64{65536 + 66, -1, -65, 65.9, -65.9, 65535, 65536, 4294967296 + 97, -4294967296 + 98, 0.5, -0.5, math.NaN(), math.Inf(1), math.Inf(-1), 9007199254740991, -9007199254740991, 1e15 + 0.5}))
+			args[i] = numArg(Pick(r, []float64{65536 + 66, -1, -65, 65.9, -65.9, 65535, 65536, 4294967296 + 97, -4294967296 + 98, 0.5, -0.5, math.NaN(), math.Inf(1), math.Inf(-1), 9007199254740991, -9007199254740991, 1e15 + 0.5, 9223372036854777856, -9223372036854777856, 18446744073709555712, 1e19, 1.7976931348623157e308}))
 		default:
 			args[i] = Pick(r, []jarg{argUndef, argNull, argTrue, argFalse})
 		}
@@ -693,9 +652,6 @@ func (g *c09gen) chain() {
 			m = methods[4+r.Intn(3)]
 		}
 		args := g.callArgs(m, cur, fl)
-		for overflowArg(m, args) && flavourOf(cur) != "ascii" {
-			args = g.callArgs(m, cur, fl)
-		}
 		step := "var r = s." + m.js + "(" + strings.Join(jsOf(args), ",") + "); if (typeof r === 'string') s = r; r"
 		o := RunJS(vm, step)
 		ops = append(ops, fmt.Sprintf("(%s, %s)", m.coq, coqOf(args)))
@@ -826,9 +782,6 @@ func (g *c09gen) effectHistory() {
 				u = g.units(fl, 5)
 			}
 			args := g.callArgs(m, u, fl)
-			for overflowArg(m, args) && flavourOf(u) != "ascii" {
-				args = g.callArgs(m, u, fl)
-			}
 			if m.coq == "MConcat" && len(args) == 0 {
 				args = append(args, strArg(g, g.units(fl, 3)))
 			}
@@ -850,16 +803,13 @@ func (g *c09gen) effectHistory() {
 					if strings.HasPrefix(a.coq, "ANum") && r.Intn(6) > 0 {
 						var bits uint64
 						fmt.Sscanf(a.coq, "ANum %d", &bits)
-						if f := math.Float64frombits(bits); f < 9e18 {
-							nv = f
-						}
+						nv = math.Float64frombits(bits)
 					}
 					e := g.effectObj(i+1, sv, nv)
 					js[i], cq[i] = e.js, e.coq
 				}
 			}
-			ischar := m.coq == "MCharAt" || m.coq == "MCharCodeAt"
-			if !ischar && r.Intn(10) < 3 {
+			if r.Intn(10) < 3 {
 				ts := r.Intn(8) == 0
 				call = "String.prototype." + m.js + ".call(" + strings.Join(append([]string{fmt.Sprintf("E(0,%s,0,%v,false,null)", g.strExpr(u), ts)}, js...), ",") + ")"
 				stepCoq = fmt.Sprintf("(Some %s, ERObj 0 %s %s, %s)", m.coq, Cunits(u), Cbool(ts), Clist(cq))
@@ -925,9 +875,6 @@ func (g *c09gen) patched() {
 	fl := g.flavour()
 	u := g.units(fl, 6)
 	args := g.callArgs(m, u, fl)
-	for overflowArg(m, args) && flavourOf(u) != "ascii" {
-		args = g.callArgs(m, u, fl)
-	}
 	e := g.strExpr(u)
 	var rcoq, call string
 	a := strings.Join(jsOf(args), ",")
@@ -937,10 +884,6 @@ func (g *c09gen) patched() {
 	case k < 8:
 		rcoq, call = "RStrObj "+Cunits(u), "new String("+e+")."+m.js+"("+a+")"
 	default:
-		if (m.coq == "MCharAt" || m.coq == "MCharCodeAt") && !plain(u) {
-			u = g.units(2, 6)
-			e = g.strExpr(u)
-		}
 		rcoq, call = "RCallStr "+Cunits(u), callOn(e)(m.js, jsOf(args))
 	}
 	src := "String.prototype.toString = function(){ return " + g.strExpr(x) + " }; " + call
